@@ -19,6 +19,8 @@ import (
 	"math/big"
 	"strings"
 
+	"github.com/btcsuite/btcd/btcec"
+
 	"github.com/hyperledger/aries-framework-go/component/kmscrypto/doc/jose/jwk"
 	"github.com/hyperledger/aries-framework-go/component/kmscrypto/doc/jose/jwk/jwksupport"
 	"github.com/hyperledger/aries-framework-go/component/kmscrypto/doc/util/fingerprint"
@@ -163,6 +165,9 @@ func c16Key(kt string, pub []byte) string {
 	codes := map[string]uint64{"ed25519": fingerprint.ED25519PubKeyMultiCodec, "x25519": fingerprint.X25519PubKeyMultiCodec,
 		"p256": fingerprint.P256PubKeyMultiCodec, "p384": fingerprint.P384PubKeyMultiCodec, "p521": fingerprint.P521PubKeyMultiCodec,
 		"bls": fingerprint.BLS12381g2PubKeyMultiCodec}
+	if kt == "k256" {
+		return c16K256(pub)
+	}
 	code, ok := codes[kt]
 	if !ok {
 		return "bad-input"
@@ -230,6 +235,28 @@ func c16Key(kt string, pub []byte) string {
 		}
 	}
 	return fmt.Sprintf("didkey=%s back=%s fp=%s jwk=%s", dk, back, fp, jw)
+}
+
+// secp256k1 has no did:key codec here; its JWK form must decode back to the same point
+func c16K256(pub []byte) string {
+	pk, err := btcec.ParsePubKey(pub, btcec.S256())
+	if err != nil {
+		return "bad-input"
+	}
+	key := &ecdsa.PublicKey{Curve: btcec.S256(), X: pk.X, Y: pk.Y}
+	jw := "err"
+	if j, err := jwksupport.JWKFromKey(key); err == nil {
+		if b, err := j.MarshalJSON(); err == nil {
+			j2 := &jwk.JWK{}
+			if err := j2.UnmarshalJSON(b); err == nil {
+				jw = "differs"
+				if k, ok := j2.Key.(*ecdsa.PublicKey); ok && k.X.Cmp(pk.X) == 0 && k.Y.Cmp(pk.Y) == 0 {
+					jw = "same"
+				}
+			}
+		}
+	}
+	return "didkey=- back=same fp=na jwk=" + jw
 }
 
 func c16Run(input string) string {
@@ -338,6 +365,12 @@ func c16Credential(r *Rng) jm {
 		vc["@context"] = ctx
 	case 2:
 		ctx = append(ctx, jm{"image": jm{"@id": "schema:image", "@type": "@id"}})
+		if r.Bool() { // a URI after the inline object: @context is ordered
+			ctx = append(ctx, "https://www.w3.org/2018/credentials/examples/v1")
+			if r.Bool() {
+				ctx = append(ctx, jm{"alias": "schema:name"}, "https://w3id.org/security/bbs/v1")
+			}
+		}
 		vc["@context"] = ctx
 	default:
 		vc["@context"] = ctx
@@ -583,7 +616,7 @@ func c16Gen(r *Rng, tier string) []string {
 			}
 			out = append(out, "jwt|"+r.Pick([]string{"m", "f"})+"|"+c16Marshal(vc))
 		default:
-			kt := r.Pick([]string{"ed25519", "x25519", "p256", "p384", "p521", "bls"})
+			kt := r.Pick([]string{"ed25519", "x25519", "p256", "p384", "p521", "bls", "k256", "k256"})
 			var pub []byte
 			switch kt {
 			case "ed25519":
@@ -593,10 +626,22 @@ func c16Gen(r *Rng, tier string) []string {
 			case "bls":
 				pub = r.Bytes(96)
 			default:
-				c := map[string]elliptic.Curve{"p256": elliptic.P256(), "p384": elliptic.P384(), "p521": elliptic.P521()}[kt]
-				k := new(big.Int).SetBytes(r.Bytes(40))
+				c := map[string]elliptic.Curve{"p256": elliptic.P256(), "p384": elliptic.P384(), "p521": elliptic.P521(), "k256": btcec.S256()}[kt]
+				k := new(big.Int).SetBytes(r.Bytes(24))
 				x, y := c.ScalarBaseMult(k.Bytes())
-				pub = elliptic.MarshalCompressed(c, x, y)
+				if r.N(5) == 0 {
+					// a coordinate with a leading zero byte (1 key in 128): walk k until one shows up
+					size := (c.Params().BitSize + 7) / 8
+					for len(x.Bytes()) == size && len(y.Bytes()) == size {
+						k.Add(k, big.NewInt(1))
+						x, y = c.ScalarBaseMult(k.Bytes())
+					}
+				}
+				if kt == "k256" {
+					pub = (&btcec.PublicKey{Curve: btcec.S256(), X: x, Y: y}).SerializeCompressed()
+				} else {
+					pub = elliptic.MarshalCompressed(c, x, y)
+				}
 			}
 			out = append(out, "key|"+kt+"|"+hex.EncodeToString(pub))
 		}
